@@ -891,3 +891,421 @@ func rKindTables(id string) func(w *World, r *Report) {
 		}
 	}
 }
+
+// ------------------------------------------------------------------ round 9 (one-token changes)
+
+func init() {
+	addRules("C03", func(w *World, r *Report) {
+		subRule(w, r, func(w *World, r *Report) { rInherit("R08.3")(w, r) }, "R03.17", "a command stops where its parent would: the settings the parser reads through the cursor are copied field for field into every child node (same obligations as C08 R08.3)", 4)
+	}, func(w *World, r *Report) {
+		subRule(w, r, rC07SingleDash, "R03.18", "a token is consumed with everything attached to it: in single-dash mode the attached text is left out only when it is empty (same obligations as C07 R07.5)", 2)
+	})
+	addRules("C10", func(w *World, r *Report) {
+		subRule(w, r, func(w *World, r *Report) { rInherit("R08.3")(w, r) }, "R10.17", "the command selected does not depend on a setting leaking into another: child nodes inherit each setting from the same setting of the parent (same obligations as C08 R08.3)", 4)
+	})
+	addRules("C06", func(w *World, r *Report) {
+		subRule(w, r, rC07NormalIsLong, "R06.19", "a name and its alias spelled with one or two dashes have the same effect: the long-option branch and the Normal-mode branch of the tokeniser are the same computation (same obligations as C07 R07.2)", 1)
+	})
+	addRules("C08", rPairLoopComplete("R08.16"))
+	addRules("C11", rPairLoopComplete("R11.20"))
+	addRules("C09", func(w *World, r *Report) {
+		subRule(w, r, rC02Lookahead, "R09.11", "what ends a greedy value list (and so becomes the stop token) is exactly what Save would refuse: look-ahead and Save use the same conversion (same obligations as C02 R02.2)", 2)
+	})
+	for prop, id := range map[string]string{"C14": "R14.13", "C16": "R16.21"} {
+		addRules(prop, rSerialWithholds(id))
+	}
+	for prop, id := range map[string]string{"C01": "R01.21", "C02": "R02.18", "C03": "R03.19", "C04": "R04.12", "C07": "R07.13", "C12": "R12.11"} {
+		addRules(prop, rSplitterCalls(id))
+	}
+	addRules("C02", func(w *World, r *Report) {
+		subRule(w, r, rC07Units, "R02.19", "how many tokens an occurrence takes does not depend on the encoding length of a one-character name (same obligations as C07 R07.3)", 1)
+	})
+	addRules("C05", func(w *World, r *Report) {
+		subRule(w, r, rC07Bundling, "R05.16", "an abbreviation written with one dash keeps its attached value (same obligations as C07 R07.4)", 3)
+	})
+	addRules("C12", func(w *World, r *Report) {
+		subRule(w, r, rC07Bundling, "R12.12", "a value given on the command line wins in every spelling: the bundled form keeps its attached value (same obligations as C07 R07.4)", 3)
+	})
+	addRules("C08", rParseReportsFinalNode("R08.17"))
+	addRules("C16", rEmptyGraphOnly("R16.22"))
+	addRules("C17", rBashTrim("R17.16"), rCompWord("R17.17"))
+	addRules("C18", rLonesomeDash("R18.19"))
+	addRules("C01", rRegexChoice("R01.22"))
+	addRules("C07", rRegexChoice("R07.14"))
+}
+
+// rSerialWithholds: in serial mode a ready vertex is held back only because a vertex is running.
+func rSerialWithholds(id string) func(w *World, r *Report) {
+	return func(w *World, r *Report) {
+		ru := r.Rule(id, "Run finishes in serial mode too: inside the serial-mode scan getNextVertex answers \"nothing to start, not done\" only for a vertex whose status is runInProgress (any other status held back there would never change and Run would poll forever)", 1)
+		fn := w.Fn(nGetNext)
+		if fn == nil {
+			ru.Undecided("anchor", "-", "getNextVertex not found")
+			return
+		}
+		st := enumConsts(w, "dag", "runStatus")
+		n := 0
+		for _, b := range fn.Blocks {
+			ret, ok := b.Instrs[len(b.Instrs)-1].(*ssa.Return)
+			if !ok || len(ret.Results) != 3 {
+				continue
+			}
+			c1, ok1 := ret.Results[1].(*ssa.Const)
+			c2, ok2 := ret.Results[2].(*ssa.Const)
+			if !ok1 || !ok2 || c1.Value.String() != "false" || c2.Value.String() != "false" {
+				continue
+			}
+			serial := false
+			running := false
+			for _, f := range factsAt(b) {
+				if f.Op == token.ILLEGAL && f.Truth {
+					if _, ok := loadOfFieldNamed(f.X, "serial"); ok {
+						serial = true
+					}
+				}
+				if f.Op == token.EQL && f.Y != nil {
+					if _, ok := loadOfFieldNamed(f.X, "status"); ok {
+						if k, ok := constInt(f.Y); ok && k == st["runInProgress"] {
+							running = true
+						}
+					}
+				}
+			}
+			if !serial {
+				continue
+			}
+			n++
+			ru.Check(running, "serial/withhold", w.IPos(ret), "held back because a vertex is in progress", "in serial mode getNextVertex withholds work for a vertex that is not running (e.g. one marked to be skipped): its status never changes, so Run never returns")
+		}
+		if n == 0 {
+			ru.Present("serial/withhold/none", w.Pos(fn.Pos()), "no early withhold in the serial scan")
+		}
+	}
+}
+
+// rSplitterCalls: how the parser calls the tokeniser.
+func rSplitterCalls(id string) func(w *World, r *Report) {
+	return func(w *World, r *Report) {
+		ru := r.Rule(id, "every token is classified under the mode the program selected and with the documented syntax: each call of the tokeniser in parseCLIArgs passes the parser's own mode parameter and the constant false for the Windows-style flag (with it a value such as /etc/hosts would look like an option and be left unconsumed)", 3)
+		fn := w.Fn(nParseCLI)
+		if fn == nil {
+			ru.Undecided("anchor", "-", "parseCLIArgs not found")
+			return
+		}
+		var modeParam *ssa.Parameter
+		for _, p := range fn.Params {
+			if typeString(p.Type()) == "getoptions.Mode" {
+				modeParam = p
+			}
+		}
+		n := 0
+		for _, c := range callsTo(fn, nIsOption) {
+			n++
+			a := c.Common().Args
+			good := len(a) == 3 && modeParam != nil && a[1] == ssa.Value(modeParam)
+			why := ""
+			if !good {
+				why = "the mode handed to the tokeniser is not the parser's mode parameter (a node's own field is only ever set on the root)"
+			}
+			if len(a) == 3 {
+				if k, ok := a[2].(*ssa.Const); !ok || k.Value == nil || k.Value.String() != "false" {
+					good = false
+					why = "the Windows-style flag is not the constant false"
+				}
+			}
+			ru.Check(good, "splitter-call", w.IPos(c), "isOption(token, mode, false)", why+": tokens are classified differently from what the program configured")
+		}
+		if n == 0 {
+			ru.Bad("splitter-call", w.Pos(fn.Pos()), "the parser does not call the tokeniser")
+		}
+	}
+}
+
+// rParseReportsFinalNode (R08.17): Parse applies the unknown mode of the node the parser ended at.
+func rParseReportsFinalNode(id string) func(w *World, r *Report) {
+	return func(w *World, r *Report) {
+		ru := r.Rule(id, "unknown options are reported under the mode of the command they were met in: in Parse every read of unknownMode goes through the final node (the parser's result / gopt.finalNode), never through the root", 1)
+		fn := w.Fn(nParse)
+		if fn == nil {
+			ru.Undecided("anchor", "-", "Parse not found")
+			return
+		}
+		n := 0
+		eachInstr(fn, func(in ssa.Instruction) {
+			fa, ok := in.(*ssa.FieldAddr)
+			if !ok || fieldOfAddr(fa).Name() != "unknownMode" {
+				return
+			}
+			n++
+			good := false
+			if _, ok := loadOfFieldNamed(fa.X, "finalNode"); ok {
+				good = true
+			}
+			if ex, ok := fa.X.(*ssa.Extract); ok && ex.Index == 0 {
+				if c, ok := ex.Tuple.(*ssa.Call); ok && calleeName(c) == nParseCLI {
+					good = true
+				}
+			}
+			ru.Check(good, "Parse/unknown-mode", w.IPos(fa), "mode of the final node", "Parse reads the unknown mode of a node other than the one the parser ended at: a command's own Pass / Warn / Fail setting is ignored")
+		})
+		if n == 0 {
+			ru.Bad("Parse/unknown-mode", w.Pos(fn.Pos()), "Parse does not consult the unknown mode")
+		}
+	}
+}
+
+// rEmptyGraphOnly (R16.22): Run returns without running anything only for the empty graph.
+func rEmptyGraphOnly(id string) func(w *World, r *Report) {
+	return func(w *World, r *Report) {
+		ru := r.Rule(id, "every task of a non-empty graph gets its turn: the only return of Run that precedes the cycle check and the scheduler loop without reporting an error is the one for len(Vertices) == 0", 1)
+		fn := w.Fn("(*dag.Graph).Run")
+		if fn == nil {
+			ru.Undecided("anchor", "-", "Run not found")
+			return
+		}
+		var dfs ssa.Instruction
+		for _, c := range callsTo(fn, "(*dag.Graph).DepthFirstSort") {
+			dfs = c
+		}
+		if dfs == nil {
+			ru.Undecided("anchor", w.Pos(fn.Pos()), "no cycle check in Run")
+			return
+		}
+		ig := buildIG(fn)
+		seen := ig.reachFrom([]int{0}, func(in ssa.Instruction) bool { return in == dfs })
+		n := 0
+		for i, in := range ig.instrs {
+			ret, ok := in.(*ssa.Return)
+			if !ok || !seen[i] || len(ret.Results) != 1 || !isNilConst(ret.Results[0]) {
+				continue
+			}
+			n++
+			good := false
+			for _, f := range factsAt(ret.Block()) {
+				if f.Op == token.EQL && f.Y != nil {
+					if c, ok := lenOf(f.X); ok {
+						if _, isV := loadOfFieldNamed(c, "Vertices"); isV {
+							if k, ok := constInt(f.Y); ok && k == 0 {
+								good = true
+							}
+						}
+					}
+				}
+			}
+			ru.Check(good, "Run/early-success", w.IPos(ret), "only for the empty graph", "Run can return nil before scheduling anything for a graph that has tasks: they are never started (and a cycle among them is not reported)")
+		}
+		if n == 0 {
+			ru.Present("Run/early-success/none", w.Pos(fn.Pos()), "no early success return")
+		}
+	}
+}
+
+// rBashTrim (R17.16): the bash form of a `--name=value` candidate is everything after the first `=`.
+func rBashTrim(id string) func(w *World, r *Report) {
+	return func(w *World, r *Report) {
+		ru := r.Rule(id, "a value that itself contains `=` is offered whole: wherever the completion code cuts a candidate or the typed word at `=` and takes the second piece, the cut is at the first `=` only (strings.SplitN(s, \"=\", 2)[1] or strings.Cut)", 0)
+		fn := w.Fn(nParseCLI)
+		if fn == nil {
+			ru.Undecided("anchor", "-", "parseCLIArgs not found")
+			return
+		}
+		n := 0
+		eachInstr(fn, func(in ssa.Instruction) {
+			ia, ok := in.(*ssa.IndexAddr)
+			if !ok {
+				return
+			}
+			c, ok := ia.X.(*ssa.Call)
+			if !ok {
+				return
+			}
+			cn := calleeName(c)
+			if cn != "strings.Split" && cn != "strings.SplitN" {
+				return
+			}
+			if sep, ok := constString(c.Call.Args[1]); !ok || sep != "=" {
+				return
+			}
+			if k, ok := constInt(ia.Index); !ok || k != 1 {
+				return
+			}
+			n++
+			good := false
+			if cn == "strings.SplitN" {
+				if k, ok := constInt(c.Call.Args[2]); ok && k == 2 {
+					good = true
+				}
+			}
+			ru.Check(good, "cut-at-first-equals", w.IPos(c), "SplitN(s, \"=\", 2)[1]", "the text after `=` is cut again at a later `=`: a suggested value such as `env=dev` is offered as `env`")
+		})
+		if n == 0 {
+			ru.Present("cut-at-first-equals/none", w.Pos(fn.Pos()), "no piece [1] of a split at `=` in the parser")
+		}
+	}
+}
+
+// rCompWord (R17.17): which argument is the word being completed.
+func rCompWord(id string) func(w *World, r *Report) {
+	return func(w *World, r *Report) {
+		ru := r.Rule(id, "the word being completed is the one the shell names: in the completion branch of Parse the only element of args that is read is args[1] (bash calls the completion command with the command name, the word being completed and the previous word)", 1)
+		fn := w.Fn(nParse)
+		if fn == nil {
+			ru.Undecided("anchor", "-", "Parse not found")
+			return
+		}
+		var argsP *ssa.Parameter
+		for _, p := range fn.Params {
+			if typeString(p.Type()) == "[]string" {
+				argsP = p
+			}
+		}
+		n := 0
+		eachInstr(fn, func(in ssa.Instruction) {
+			ia, ok := in.(*ssa.IndexAddr)
+			if !ok || argsP == nil || ia.X != ssa.Value(argsP) {
+				return
+			}
+			n++
+			k, isC := constInt(ia.Index)
+			ru.Check(isC && k == 1, "comp-word", w.IPos(ia), "args[1]", "Parse looks at an argument other than args[1] to decide about the trailing empty word: with the arguments bash really passes the previous word is completed instead of the new one")
+		})
+		if n == 0 {
+			ru.Present("comp-word/none", w.Pos(fn.Pos()), "Parse does not index its arguments")
+		}
+	}
+}
+
+// rLonesomeDash (R18.19): in the synopsis of an option every alias gets its dashes; only the alias `-` itself is left bare.
+func rLonesomeDash(id string) func(w *World, r *Report) {
+	return func(w *World, r *Report) {
+		ru := r.Rule(id, "help shows each name the way it is typed: in Option.Synopsis the test that leaves the lonesome dash without extra dashes compares the alias being rendered (the loop element) with \"-\", not some other name of the option", 1)
+		fn := w.Fn("(*option.Option).Synopsis")
+		if fn == nil {
+			ru.Undecided("anchor", "-", "Option.Synopsis not found")
+			return
+		}
+		n := 0
+		eachInstr(fn, func(in ssa.Instruction) {
+			bo, ok := in.(*ssa.BinOp)
+			if !ok || (bo.Op != token.EQL && bo.Op != token.NEQ) {
+				return
+			}
+			x, y := bo.X, bo.Y
+			if isConstStr(x, "-") {
+				x, y = y, x
+			}
+			if !isConstStr(y, "-") {
+				return
+			}
+			n++
+			// x must be an element of the Aliases list: *(&aliases[i]) inside the range loop
+			good := false
+			if u, ok := x.(*ssa.UnOp); ok && u.Op == token.MUL {
+				if ia, ok := u.X.(*ssa.IndexAddr); ok {
+					if _, ok := loadOfFieldNamed(ia.X, "Aliases"); ok {
+						good = true
+					}
+				}
+			}
+			ru.Check(good, "synopsis/lonesome-dash", w.IPos(bo), "alias == \"-\"", "the lonesome-dash test looks at something other than the alias being rendered: an alias `-` gets dashes (`--`) or every alias of an option named `-` loses them")
+		})
+		if n == 0 {
+			ru.Present("synopsis/lonesome-dash/none", w.Pos(fn.Pos()), "no special case for `-`")
+		}
+	}
+}
+
+// rRegexChoice: which expression the tokeniser uses.
+func rRegexChoice(id string) func(w *World, r *Report) {
+	return func(w *World, r *Report) {
+		ru := r.Rule(id, "the syntax that admits `/name` and `:value` is used only on request: in the tokeniser the expression whose prefix group admits `/` is applied only under windows == true, the other one only under windows == false", 2)
+		fn := w.Fn(nIsOption)
+		if fn == nil {
+			ru.Undecided("anchor", "-", "isOption not found")
+			return
+		}
+		var winP *ssa.Parameter
+		for _, p := range fn.Params {
+			if typeString(p.Type()) == "bool" {
+				winP = p
+			}
+		}
+		slash := map[*ssa.Global]bool{}
+		for _, ri := range w.regexConstants() {
+			if ri.Global != nil && ri.Err == nil {
+				slash[ri.Global] = strings.Contains(ri.Pattern, "/")
+			}
+		}
+		n := 0
+		// the truth of the windows flag on the way into block b (through the edge from pred when given)
+		flagAt := func(b *ssa.BasicBlock, pred *ssa.BasicBlock) (truth, known bool) {
+			facts := factsAt(b)
+			if pred != nil {
+				facts = factsAt(pred)
+				if iff, ok := pred.Instrs[len(pred.Instrs)-1].(*ssa.If); ok && pred.Succs[0] != pred.Succs[1] {
+					facts = append(facts, condFacts(iff.Cond, pred.Succs[0] == b, iff)...)
+				}
+			}
+			for _, f := range facts {
+				if f.Op == token.ILLEGAL && winP != nil && f.X == ssa.Value(winP) {
+					return f.Truth, true
+				}
+			}
+			return false, false
+		}
+		check := func(g *ssa.Global, c ssa.Instruction, truth, known bool) {
+			isWin, ok := slash[g]
+			if !ok {
+				return
+			}
+			n++
+			ru.Check(known && truth == isWin, "regex-choice/"+g.Name(), w.IPos(c), "applied under the matching value of the windows flag", "the tokeniser applies "+g.Name()+" under the wrong value of its windows flag: `/` and `:` get a meaning (or lose it) that the caller did not ask for")
+		}
+		globalOf := func(v ssa.Value) *ssa.Global {
+			if ld, ok := v.(*ssa.UnOp); ok {
+				g, _ := ld.X.(*ssa.Global)
+				return g
+			}
+			return nil
+		}
+		for _, c := range callsTo(fn, "(*regexp.Regexp).FindStringSubmatch") {
+			recv := c.Common().Args[0]
+			if g := globalOf(recv); g != nil {
+				t, k := flagAt(c.Block(), nil)
+				check(g, c, t, k)
+				continue
+			}
+			// the expression is chosen first and applied once: re := a; if windows { re = b }; re.FindStringSubmatch(s)
+			if phi, ok := recv.(*ssa.Phi); ok {
+				for i, e := range phi.Edges {
+					g := globalOf(e)
+					if g == nil {
+						continue
+					}
+					pred := phi.Block().Preds[i]
+					t, k := flagAt(phi.Block(), pred)
+					if !k {
+						// the default taken when the flag's branch was skipped: the edge that bypasses `if windows {…}`
+						if ld, ok := e.(*ssa.UnOp); ok {
+							t, k = flagAt(ld.Block(), nil)
+							if !k {
+								// loaded before the test: it survives only on the test's other edge
+								for j, e2 := range phi.Edges {
+									if j != i && globalOf(e2) != nil {
+										if t2, k2 := flagAt(phi.Block(), phi.Block().Preds[j]); k2 {
+											t, k = !t2, true
+										}
+									}
+								}
+							}
+						}
+					}
+					check(g, c, t, k)
+				}
+			}
+		}
+		if n < 2 {
+			ru.Bad("regex-choice", w.Pos(fn.Pos()), "the two tokeniser expressions are not both applied")
+		}
+	}
+}
